@@ -443,6 +443,21 @@ func checkText(sh *shard, idx int64, s string) {
 	}
 	// SnakeToCamelCase (+ round trip for identifiers)
 	ident := isSnakeIdent(s)
+	if ident {
+		// history: spellings that differ from the identifier only in the case of one letter (and map
+		// to the same camel form) are converted first; the round trip below must not be influenced
+		// by what the library was asked before
+		for i := 0; i < len(s); i++ {
+			if s[i] >= 'a' && s[i] <= 'z' {
+				v := s[:i] + string(s[i]-'a'+'A') + s[i+1:]
+				for _, up := range []bool{false, true} {
+					ev++
+					up := up
+					k.str("SnakeToCamelCase", func() string { return strz.SnakeToCamelCase(v, up) }, func() string { return fmt.Sprintf("SnakeToCamelCase(%q, %v)", v, up) })
+				}
+			}
+		}
+	}
 	for _, up := range []bool{false, true} {
 		ev++
 		if multi || (ident && strings.Contains(s, "_")) {
@@ -510,9 +525,9 @@ func main() {
 	if r.Thorough() {
 		maxRunes, maxBytes = 7, 7
 	}
-	// one rune per UTF-8 lead-byte class: ASCII, C2..CF (é), D0..DF (я), E0..EF (世), F0..F4 (😀)
-	runeAlpha := []string{"a", "B", "é", "я", "世", "😀", "_"}
-	byteAlpha := []string{"a", "\xff", "\xc3", "\xa9", "\xd1", "\xe4", "\xb8", "\xf0", "\x9f"}
+	// one rune per UTF-8 lead-byte class: ASCII (incl. its last value 0x7F), C2..CF (é), D0..DF (я), E0..EF (世), F0..F4 (😀)
+	runeAlpha := []string{"a", "B", "\x7f", "é", "я", "世", "😀", "_"}
+	byteAlpha := []string{"a", "\x7f", "\xff", "\xc3", "\xa9", "\xd1", "\xe4", "\xb8", "\xf0", "\x9f"}
 
 	// family A
 	famA := common.AllStrings(runeAlpha, maxRunes)
